@@ -160,7 +160,9 @@ IDENTITIES = [
     ("xterm", "380"),
     ("kitty", "0.19.3"),
     ("kitty", "0.20.0"),
-    ("kitty", "0.25.0"),
+    ("kitty", "0.25.0"),  # last version that needs per-frame deletion by z-index
+    ("kitty", "0.25.1"),  # first versions past that boundary
+    ("kitty", "0.25.2"),
     ("kitty", "0.26.5"),
     ("konsole", "21.12.3"),
     ("konsole", "22.04.0"),
